@@ -218,6 +218,7 @@ pub fn scenario(name: &str, params: &Value) -> Scenario {
         if kind == 3 {
             // (the probe above told which subscription identifier this call will get)
             sys.m.next_sub_guess = learned_sub.expect("harness: probe");
+            sys.m.sub_len_exact = true;
         }
         let hits_before = sys.m.hits.contains(&"max-packet-size-refusal");
         sys.apply(Ev::Start(spec.clone()));
